@@ -187,7 +187,51 @@ def build_ops(dadi):
         if d == 3: phi = dadi.PhiManip.phi_2D_to_3D_split_2(xx, phi)
         ns = (4, 5) if d == 2 else (3, 3, 4)
         return dadi.Spectrum.from_phi(phi, ns, tuple([xx] * d))
+    # ---- uncertainty calls on ONE model function object per process (multinom=False: the user's function itself is what the
+    # module-level cache of model spectra is keyed on); parameters, sample sizes and grids come from small pools, so an interleaving
+    # repeats a (function, parameters, sample sizes) combination with a DIFFERENT grid, a (function, grid) with different
+    # parameters, and so on
+    def unc_model(params, ns, pts):
+        nu, T, theta = params
+        xx = dadi.Numerics.default_grid(pts)
+        phi = dadi.PhiManip.phi_1D(xx)
+        phi = dadi.Integration.one_pop(phi, xx, T, nu)
+        return theta * dadi.Spectrum.from_phi(phi, ns, (xx,))
+    shared = dadi.Numerics.make_extrap_func(unc_model)
+    def unc_inputs(r):
+        p0 = [[1.5, 0.3, 1000.0], [2.0, 0.3, 1000.0], [1.5, 0.5, 1200.0]][int(r.integers(3))]
+        ns = [(6,), (8,)][int(r.integers(2))]
+        pts = [[10, 14, 18], [16, 20, 24], [10, 14, 20], [24, 30, 36]][int(r.integers(4))]
+        rr = np.random.default_rng(len(ns) + ns[0])                      # data depend on the sample size only
+        truth = shared([1.7, 0.35, 1000.0], ns, [40, 50, 60])
+        data = dadi.Spectrum(rr.poisson(np.ma.filled(truth, 0.0)).astype(float))
+        boots = [dadi.Spectrum(rr.poisson(np.maximum(np.ma.filled(data, 0.0), 1e-3)).astype(float)) for _ in range(4)]
+        kind = int(r.integers(3))
+        p = [list(p0), tuple(p0), np.array(p0)][kind]
+        return p, ns, pts, data, boots
+    def flat(res):
+        return np.concatenate([np.ravel(np.asarray(x, dtype=float)) for x in res]) if isinstance(res, tuple) else np.ravel(np.asarray(res, dtype=float))
+    @op
+    def fim_uncert(r):
+        p, ns, pts, data, boots = unc_inputs(r)
+        return flat(dadi.Godambe.FIM_uncert(shared, pts, p, data, log=bool(r.integers(2)), multinom=False, return_FIM=True))
+    @op
+    def gim_uncert(r):
+        p, ns, pts, data, boots = unc_inputs(r)
+        return flat(dadi.Godambe.GIM_uncert(shared, pts, boots, p, data, log=bool(r.integers(2)), multinom=False, return_GIM=True))
+    @op
+    def nested_stats(r):
+        p, ns, pts, data, boots = unc_inputs(r)
+        nested = [[0], [1], [0, 1]][int(r.integers(3))]
+        G = dadi.Godambe
+        out = [G.LRT_adjust(shared, pts, boots, p, data, nested, multinom=False), G.score_stat(shared, pts, boots, p, data, nested, multinom=False),
+               G.Wald_stat(shared, pts, boots, p, data, nested, [x * 1.1 for x in p], multinom=False)]
+        # the parameters handed in must come back unchanged (they are part of the result so that a change shows up in the digest)
+        return np.concatenate([np.ravel(np.asarray(out, dtype=float)), np.asarray(p, dtype=float)])
+    assert len(ops) == N_OPS, len(ops)
     return ops
+
+N_OPS = 33
 
 # ---------------------------------------------------------------- memo tables: one input varied at a time
 # For every memo table of the library a family of calls whose cached computation has the inputs listed in MEMO_INPUTS.
